@@ -188,7 +188,8 @@ theorem removeDiscrepancies_rows (m : MapObj α β) (hg : m.grouped = true) (hs 
   simp only [hg, if_true, hs]
   split
   · exact ⟨hg, rfl⟩
-  · simp [MapObj.selectMask, MapObj.regroup, hg]
+  · have hg' : m.gmeta.isSome = true := hg
+    simp [MapObj.selectMask, MapObj.regroup, MapObj.grouped, hg']
 
 /-- the object after `n` calls of `remove_discrepancies()` on a freshly constructed map -/
 theorem removeDiscrepancies_iterate (rows : List (Row α β)) (n : Nat) :
